@@ -860,8 +860,8 @@ func (r *Runner) restoreFromSnapshot(snapDir string, meta *SnapshotMetadata) ([]
 			_ = os.Lchown(entry.Path, entry.UID, entry.GID)
 		case ArtifactKindRegular:
 			backup := filepath.Join(snapDir, entry.BackupRelpath)
-			modeStr := fmt.Sprintf("%04o", entry.Mode)
-			if err := SwapArtifact(backup, entry.Path, entry.UID, entry.GID, modeStr); err != nil {
+			modeStr := fmt.Sprintf("%04o", entry.Mode&0o777)
+			if err := swapArtifact(backup, entry.Path, entry.UID, entry.GID, modeStr, specialModeBits(entry.Mode)); err != nil {
 				return restored, fmt.Errorf("restore %s: %w", entry.Path, err)
 			}
 		default:
